@@ -168,6 +168,40 @@ def body_geometry(ctx, case):
               lambda: "heights now %r baseline now %r; " % (h_arr.tolist(), b_arr.tolist()) + desc())
     ctx.check(first.shape == second.shape and np.array_equal(first, second) and first.shape == np.asarray(coords).shape and np.array_equal(first, coords),
               "second_crop_of_the_same_line_differs", lambda: "shapes %r %r %r; " % (first.shape, second.shape, np.asarray(coords).shape) + desc())
+    # the same line in the containers / dtypes callers use: lists, float32, and - when the coordinates are integral and
+    # small enough - the integer arrays detectors and PAGE XML import produce (int64, int32, int16)
+    variants = [("list", [list(p) for p in case["baseline"]]), ("float32", base.astype(np.float32))]
+    if np.array_equal(base, np.round(base)) and np.abs(base).max() < 30000:
+        variants += [("int64", base.astype(np.int64)), ("int32", base.astype(np.int32)), ("int16", base.astype(np.int16))]
+    for name, bvar in variants:
+        ref_b = np.asarray(bvar, dtype=np.float64)
+        want_map = np.asarray(eng.get_crop_inputs(ref_b.copy(), list(case["heights"]), case["line_height"]))
+        got_crop = eng.crop(img, bvar, list(case["heights"]))
+        want_crop = eng.fast_remap(img, want_map)
+        ctx.check(got_crop.shape == want_crop.shape and np.array_equal(got_crop, want_crop), "crop_depends_on_baseline_container_or_dtype",
+                  lambda: "baseline as %s: crop shape %r, expected %r; " % (name, got_crop.shape, want_crop.shape) + desc())
+        ctx.event("dtype:" + name)
+    # LineCropper.process_page / crop_lines give the engine's crop of the same line (also for lines partly outside the page)
+    import configparser
+    import contextlib
+    import io
+    from pero_ocr.core.layout import PageLayout, RegionLayout, TextLine
+    from pero_ocr.document_ocr.page_parser import LineCropper
+    cp = configparser.ConfigParser()
+    cp["LINE_CROPPER"] = {"INTERP": str(case["poly"]), "LINE_SCALE": repr(float(case["scale"])), "LINE_HEIGHT": str(case["line_height"])}
+    lc = LineCropper(cp["LINE_CROPPER"])
+    pl = PageLayout(id="p", page_size=img.shape[:2])
+    reg = RegionLayout("r", np.asarray([[0, 0], [img.shape[1], 0], [img.shape[1], img.shape[0]], [0, img.shape[0]]]))
+    reg.lines = [TextLine(id="l0", baseline=base.copy(), polygon=np.zeros((4, 2)), heights=list(case["heights"]))]
+    pl.regions = [reg]
+    with contextlib.redirect_stdout(io.StringIO()):
+        ctx.must("line_cropper_raises", lc.process_page, img, pl)
+    ctx.check(reg.lines[0].crop.shape == crop.shape and np.array_equal(reg.lines[0].crop, crop) and np.array_equal(reg.lines[0].baseline, base),
+              "line_cropper_differs_from_engine_crop", lambda: "shapes %r %r; " % (reg.lines[0].crop.shape, crop.shape) + desc())
+    l2 = TextLine(id="l1", baseline=base.copy(), polygon=np.zeros((4, 2)), heights=list(case["heights"]))
+    with contextlib.redirect_stdout(io.StringIO()):
+        ctx.must("line_cropper_raises", lc.crop_lines, img, [l2])
+    ctx.check(l2.crop.shape == crop.shape and np.array_equal(l2.crop, crop), "crop_lines_differs_from_engine_crop", desc)
     if is_nontrivial(case):
         ctx.nontrivial(repr(case))
 
